@@ -531,7 +531,7 @@ func c03CombineCorr(ctx *Ctx, n int) error {
 }
 
 func runC03(ctx *Ctx) error {
-	ctx.Res.Rule = "CORR: every string over {'{','}','*','.',';','?','a','/'} up to length 5 (thorough 7) and seeded templates through OrderedParamsFromUri / the seven SwaggerUriTo*Uri / ReplacePathParamsWithStr vs the Lean scanner; SortParamsByPath on shuffled, missing, extra declarations; CombineOperationParameters on seeded path-item / operation declaration lists vs Combine.combine. RUN: seeded documents (4-12 path templates, 0-4 variables, static/templated siblings, shared prefixes, nine methods, path-level/operation-level declarations in every order) x requests (matching with plain/escaped/non-ASCII values, wrong method, extra/missing segment, unknown static) x 7 frameworks x with/without base URL x the entry points of the generated package (HandlerWithOptions / HandlerFromMux / HandlerFromMuxWithBaseURL / Handler, RegisterHandlers / …WithBaseURL / …WithOptions); observed handler and arguments vs the statement and vs Lean route; non-trivial = RUN requests and templates containing a brace"
+	ctx.Res.Rule = "CORR: every string over {'{','}','*','.',';','?','a','/'} up to length 5 (thorough 7) and seeded templates through OrderedParamsFromUri / the seven SwaggerUriTo*Uri / ReplacePathParamsWithStr vs the Lean scanner; SortParamsByPath on shuffled, missing, extra declarations; CombineOperationParameters on seeded path-item / operation declaration lists vs Combine.combine. RUN: seeded documents (4-12 path templates, 0-4 variables, static/templated siblings, shared prefixes, nine methods, path-level/operation-level declarations in every order) x requests (matching with plain/escaped/non-ASCII values, wrong method, extra/missing segment, unknown static) x 7 frameworks x with/without base URL x the entry points of the generated package (HandlerWithOptions / HandlerFromMux / HandlerFromMuxWithBaseURL / Handler, RegisterHandlers / …WithBaseURL / …WithOptions); observed handler and arguments vs the statement and vs Lean route; non-trivial = RUN requests and templates containing a brace Session 9: a query/header/cookie parameter with the name of a path variable declared first; a generation with user templates for the routing template of every framework precedes the examined ones."
 	if err := c03CorrTemplates(ctx); err != nil {
 		return err
 	}
